@@ -47,7 +47,13 @@ pub enum Fault {
     /// history with a second component: the loader is created, then `train_bpe` runs in the same
     /// process (it installs its own process-global panic hook), then the processing function
     /// panics on the first item >= j
-    FnPanicAfterTrainBpe { j: usize },
+    /// `concurrent`: `train_bpe` runs on another thread *while* the loader is created (the two
+    /// touch the process-global hook in an order the schedule decides), the panic comes after both
+    FnPanicAfterTrainBpe {
+        j: usize,
+        #[serde(default)]
+        concurrent: bool,
+    },
     /// two loaders in one process (e.g. training and validation): pipe A is the observed one, a
     /// second threaded pipe B is created before (order 1) or after (order 0, 2) it and dropped
     /// (order 0, 1) or kept alive (order 2) before A's processing function panics on the first item >= j;
@@ -219,8 +225,10 @@ pub fn grid() -> Vec<(Shape, u8, Option<usize>, Fault)> {
     // ---- panic after another component replaced the process-global hook
     for j in [0usize, 4, 8] {
         for w in 1..=3u8 {
-            g.push((Shape::Pipe, w, None, Fault::FnPanicAfterTrainBpe { j }));
-            g.push((Shape::PipeBuffered(2), w, Some(40), Fault::FnPanicAfterTrainBpe { j }));
+            g.push((Shape::Pipe, w, None, Fault::FnPanicAfterTrainBpe { j, concurrent: false }));
+            g.push((Shape::PipeBuffered(2), w, Some(40), Fault::FnPanicAfterTrainBpe { j, concurrent: false }));
+            g.push((Shape::Pipe, w, None, Fault::FnPanicAfterTrainBpe { j, concurrent: true }));
+            g.push((Shape::PipeBuffered(2), w, Some(40), Fault::FnPanicAfterTrainBpe { j, concurrent: true }));
         }
     }
     // ---- panic cells (a worker's processing function / the upstream under the ticket lock)
@@ -317,7 +325,7 @@ impl Scenario for C09 {
         let f = match self.fault {
             Fault::Drop { k, idle } => k as u64 + (idle > 0) as u64,
             Fault::FnPanic { j, stall } | Fault::SrcPanic { j, stall } => j as u64 + (stall > 0) as u64,
-            Fault::FnPanicAfterTrainBpe { j } => j as u64 + 3,
+            Fault::FnPanicAfterTrainBpe { j, concurrent } => j as u64 + 3 + concurrent as u64,
             Fault::FnPanicTwoPipes { j, order } => j as u64 + 3 + order as u64,
             Fault::HelperThreadPanic { j } => j as u64 + 2,
             Fault::DropThenCloseFeed { k } => k as u64 + 2,
@@ -353,9 +361,9 @@ impl Scenario for C09 {
                     push(&|c| c.fault = Fault::Drop { k, idle: 0 });
                 }
             }
-            Fault::FnPanicAfterTrainBpe { j } => {
+            Fault::FnPanicAfterTrainBpe { j, concurrent } => {
                 if j > 0 {
-                    push(&|c| c.fault = Fault::FnPanicAfterTrainBpe { j: j - 1 });
+                    push(&|c| c.fault = Fault::FnPanicAfterTrainBpe { j: j - 1, concurrent });
                 }
             }
             Fault::FnPanicTwoPipes { j, order } => {
@@ -493,7 +501,7 @@ impl Scenario for C09 {
             let armed = Arc::new(std::sync::atomic::AtomicBool::new(false));
             let armed2 = armed.clone();
             let late_panic_from = match sc.fault {
-                Fault::FnPanicAfterTrainBpe { j } | Fault::FnPanicTwoPipes { j, .. } => Some(j as u64),
+                Fault::FnPanicAfterTrainBpe { j, .. } | Fault::FnPanicTwoPipes { j, .. } => Some(j as u64),
                 _ => None,
             };
             // second loader created *before* the observed one
@@ -552,6 +560,15 @@ impl Scenario for C09 {
                 rt::log(Kind::FnEnd, x, 0);
                 f_val(x)
             });
+            let trainer = if let Fault::FnPanicAfterTrainBpe { concurrent: true, .. } = sc.fault {
+                let (i, o) = (bpe_in.clone(), bpe_out.clone());
+                Some(verif_rt::shim::std::thread::spawn(move || {
+                    let res = text_utils::tokenization::train_bpe(&[i], 320, 60, &o, None, None, 1, false);
+                    rt::log(Kind::Note, 1, res.is_ok() as u64);
+                }))
+            } else {
+                None
+            };
             let feed = Arc::new(crate::c05::Gate::new());
             let src = PanickingSrc {
                 inner: Src {
@@ -713,6 +730,21 @@ impl Scenario for C09 {
                     rt::log(Kind::RecvEnd, got as u64, 0);
                     drop(it);
                     drop(late_other);
+                    rt::wait_threads_exit();
+                }
+                Fault::FnPanicAfterTrainBpe { concurrent: true, .. } => {
+                    // the training ran while the loader was being created; it is over before the failure
+                    if let Some(t) = trainer {
+                        let _ = t.join();
+                    }
+                    armed.store(true, std::sync::atomic::Ordering::SeqCst);
+                    let mut got = 0usize;
+                    while let Some(v) = it.next() {
+                        rt::log(Kind::Recv, got as u64, v);
+                        got += 1;
+                    }
+                    rt::log(Kind::RecvEnd, got as u64, 0);
+                    drop(it);
                     rt::wait_threads_exit();
                 }
                 Fault::FnPanicAfterTrainBpe { .. } => {
@@ -918,7 +950,7 @@ impl C09 {
             Fault::DropThenCloseFeed { .. } => None, // mapped to Drop above
             Fault::FnPanic { j, .. }
             | Fault::SrcPanic { j, .. }
-            | Fault::FnPanicAfterTrainBpe { j }
+            | Fault::FnPanicAfterTrainBpe { j, .. }
             | Fault::FnPanicTwoPipes { j, .. }
             | Fault::HelperThreadPanic { j } => {
                 let is_src = matches!(self.fault, Fault::SrcPanic { .. });
@@ -931,8 +963,14 @@ impl C09 {
                         stats.fault("foreign_panic_hook_set_or_taken_between_two_pipes");
                     }
                 }
-                if matches!(self.fault, Fault::FnPanicAfterTrainBpe { .. }) {
+                if let Fault::FnPanicAfterTrainBpe { concurrent, .. } = self.fault {
                     stats.fault("other_component_replaced_the_panic_hook");
+                    if concurrent {
+                        // in which order the two components touched the hook slot
+                        let order: Vec<String> = r.events.iter().filter(|e| e.kind == Kind::HookSet).map(|e| if e.task == 0 { "loader".to_string() } else { "train_bpe".to_string() }).collect();
+                        stats.probe(&format!("hook_set_order:{}", order.join(">")), 1);
+                        stats.fault("train_bpe_running_while_the_loader_is_created");
+                    }
                 }
                 if !fault_fired {
                     // the stream ended before item j (cannot happen: every cell has n > j)
